@@ -69,3 +69,158 @@ def get_cell_size(m, meta, n_hist=6000):
         if problems:
             break
     return {"reproduced": bool(problems), "input": "seeded histories on a fake terminal (ioctl / terminal size / replies patched)", "observed": [repr(problems[0])[:900]] if problems else []}
+
+
+def cached(m, meta):
+    """the `cached` decorator: per-argument caching (positional / keyword arguments are part of the key), one evaluation per key
+    until invalidated"""
+    import term_image.utils as U
+    calls = []
+
+    @U.cached
+    def f(*a, **k):
+        calls.append((a, tuple(sorted(k.items()))))
+        return len(calls)
+    problems = []
+    seq = [((1,), {}), ((1,), {}), ((2,), {}), ((1,), {"hex": True}), ((1,), {"hex": True}), ((1,), {"hex": False}), ((), {}), ((), {})]
+    seen = {}
+    for a, k in seq:
+        r = f(*a, **k)
+        key = (a, tuple(k.items()))
+        if key in seen and seen[key] != r:
+            problems.append(("value changed without invalidation", a, k))
+        seen.setdefault(key, r)
+    if len(calls) != len(seen):
+        problems.append(("evaluations", len(calls), "distinct argument lists", len(seen)))
+    f._invalidate_cache()
+    n = len(calls)
+    f(1)
+    if len(calls) != n + 1:
+        problems.append("not re-evaluated after invalidation")
+    return {"reproduced": bool(problems), "input": "a counting function under @cached", "observed": problems[:3]}
+
+
+def ts_cached(m, meta):
+    """the `terminal_size_cached` decorator: the value is recomputed exactly when the terminal size differs from the one it was
+    computed for (or after invalidation)"""
+    import os, random
+    import term_image.utils as U
+    rng = random.Random(2)
+    state = {"ts": (80, 30)}
+    saved = U.get_terminal_size
+    U.get_terminal_size = lambda: os.terminal_size(state["ts"])
+    problems = []
+    try:
+        calls = []
+
+        @U.terminal_size_cached
+        def f():
+            calls.append(state["ts"])
+            return ("value for", state["ts"])
+        last = None
+        for step in range(300):
+            op = rng.choice(["resize", "same", "call", "call", "invalidate"])
+            if op == "resize":
+                state["ts"] = rng.choice([(80, 30), (100, 40), (120, 50)])
+            elif op == "invalidate":
+                f._invalidate_terminal_size_cache()
+                last = None
+            elif op == "call":
+                n = len(calls)
+                r = f()
+                if r != ("value for", state["ts"]):
+                    problems.append(("stale value", r, "terminal size now", state["ts"]))
+                    break
+                if (len(calls) != n) != (last != state["ts"]):
+                    problems.append(("recomputed" if len(calls) != n else "not recomputed", "previous size", last, "now", state["ts"]))
+                    break
+                last = state["ts"]
+    finally:
+        U.get_terminal_size = saved
+    return {"reproduced": bool(problems), "input": "300 random resize / call / invalidate steps", "observed": problems[:2]}
+
+
+def toggles(m, meta):
+    """query / window-size-swap toggles: every toggle that changes the setting invalidates what depends on it"""
+    import term_image
+    import term_image.utils as U
+    problems = []
+    inval = {"n": 0}
+    saved = getattr(U.get_terminal_name_version, "_invalidate_cache", None)
+    try:
+        for fn_name in ("get_terminal_name_version", "get_fg_bg_colors"):
+            f = getattr(U, fn_name)
+            orig = f._invalidate_cache
+
+            def counting(orig=orig, fn_name=fn_name):
+                inval["n"] += 1
+                return orig()
+            setattr(f, "_invalidate_cache", counting)
+        term_image.disable_queries()
+        n0 = inval["n"]
+        term_image.enable_queries()
+        if inval["n"] == n0:
+            problems.append("enable_queries() after disable_queries() did not invalidate the cached terminal answers")
+        for enable, disable in ((term_image.enable_win_size_swap, term_image.disable_win_size_swap),):
+            disable()
+            U._cell_size_cache[:] = (80, 30, 10, 20)
+            enable()
+            if tuple(U._cell_size_cache) != (0, 0, 0, 0):
+                problems.append("enable_win_size_swap() did not reset the cell-size cache")
+            U._cell_size_cache[:] = (80, 30, 10, 20)
+            enable()
+            if tuple(U._cell_size_cache) != (80, 30, 10, 20):
+                problems.append("a toggle that changes nothing reset the cell-size cache")
+            disable()
+            if tuple(U._cell_size_cache) != (0, 0, 0, 0):
+                problems.append("disable_win_size_swap() did not reset the cell-size cache")
+    finally:
+        term_image.enable_queries()
+        term_image.disable_win_size_swap()
+        for fn_name in ("get_terminal_name_version", "get_fg_bg_colors"):
+            f = getattr(U, fn_name)
+            try:
+                delattr(f, "_invalidate_cache") if False else None
+            except Exception:
+                pass
+    return {"reproduced": bool(problems), "input": "toggle sequences", "observed": problems[:3]}
+
+
+def cell_ratio(m, meta):
+    """cell ratio modes: a fixed ratio is returned as set; DYNAMIC follows the cell size of the moment; FIXED is computed once"""
+    import term_image
+    import term_image.utils as U
+    import term_image.geometry as G
+    from term_image import AutoCellRatio
+    problems = []
+    cell = {"v": G.Size(10, 20)}
+    saved = (U.get_cell_size, term_image.get_cell_size if hasattr(term_image, "get_cell_size") else None, AutoCellRatio.is_supported)
+    U.get_cell_size = lambda: cell["v"]
+    if hasattr(term_image, "get_cell_size"):
+        term_image.get_cell_size = U.get_cell_size
+    AutoCellRatio.is_supported = True
+    try:
+        term_image.set_cell_ratio(0.4)
+        if term_image.get_cell_ratio() != 0.4:
+            problems.append(("fixed value", term_image.get_cell_ratio()))
+        try:
+            term_image.set_cell_ratio(AutoCellRatio.DYNAMIC)
+            for size in (G.Size(10, 20), G.Size(9, 18), G.Size(8, 20)):
+                cell["v"] = size
+                if abs(term_image.get_cell_ratio() - size.width / size.height) > 1e-12:
+                    problems.append(("DYNAMIC", tuple(size), term_image.get_cell_ratio()))
+            cell["v"] = G.Size(10, 20)
+            term_image.set_cell_ratio(AutoCellRatio.FIXED)
+            first = term_image.get_cell_ratio()
+            cell["v"] = G.Size(7, 21)
+            if term_image.get_cell_ratio() != first or abs(first - 0.5) > 1e-12:
+                problems.append(("FIXED", first, term_image.get_cell_ratio()))
+        except Exception as e:
+            problems.append(("auto modes raised", type(e).__name__, str(e)[:80]))
+    finally:
+        U.get_cell_size = saved[0]
+        if saved[1] is not None:
+            term_image.get_cell_size = saved[1]
+        AutoCellRatio.is_supported = saved[2]
+        term_image.set_cell_ratio(0.5)
+    return {"reproduced": bool(problems), "input": "cell-ratio modes with a scripted cell size", "observed": problems[:3]}
